@@ -13,12 +13,13 @@ DtOf(o) == IF o = None THEN None ELSE o[1]
 PropVerdict(r) ==
   LET R == SeqToSet(r.R)  ps == SeqToSet(r.present) IN
   \* under PREFER_DATES_FROM past / future a stated two-digit year is still pivoted by the clock: the clock-freedom
-  \* clauses are judged for the default preference only; "strictness only filters" holds for every preference
+  \* clauses are judged for the default preference, and for every preference when the string is known to write its
+  \* year (if any) with four digits (r.y4); "strictness only filters" holds for every preference
   IF \E o \in {r.outN, r.outS, r.outS2, r.outR, r.outR2} : o # None /\ IsExc(o) THEN "exception"
   ELSE IF ~StrictFilters(r.outN, r.outS) THEN "strict-changed-result"
-  ELSE IF r.pdf = "current_period" /\ ~ClockFree(r.outS, r.outS2) THEN "strict-result-depends-on-reference-time"
+  ELSE IF (r.pdf = "current_period" \/ r.y4) /\ ~ClockFree(r.outS, r.outS2) THEN "strict-result-depends-on-reference-time"
   ELSE IF ~RequireFilters(r.outN, r.outR) THEN "require-parts-changed-result"
-  ELSE IF r.pdf = "current_period" /\ ~RequireClockFree(DtOf(r.outR), DtOf(r.outR2), R) THEN "required-part-depends-on-reference-time"
+  ELSE IF (r.pdf = "current_period" \/ r.y4) /\ ~RequireClockFree(DtOf(r.outR), DtOf(r.outR2), R) THEN "required-part-depends-on-reference-time"
   \* a string with fewer than three date tokens cannot state day, month and year.  Known finding C10-token-reused: under a
   \* year-first order the number displaced by the four-digit year is used for BOTH the month and the day
   ELSE IF r.maxparts < 3 /\ (r.outS # None \/ r.outR # None) THEN (IF r.dorder \in {"YMD", "YDM"} THEN "known" ELSE "strict-result-without-all-parts")
